@@ -20,7 +20,7 @@ from nverif.oracle.jets import JetDomainError
 
 EPS = 2.0 ** -52
 FLOOR = 1e-3              # perturbations are relative to max(|x|, FLOOR)
-TOL_VALUE = 40.0          # |lib - oracle|_max <= TOL_VALUE * eps * E          (calibrated, see evidence)
+TOL_VALUE = 40.0          # |lib - oracle|_max <= TOL_VALUE * eps * E; worst measured 2.4 (8 quick seeds), 3.5 (thorough)
 UNDERFLOW = 1e-290        # absolute floor of every tolerance (results at the underflow threshold)
 C_TRUNC = 1.0             # truncation constant of the derivative clause (rigorous: 2/3 and 1/3)
 K_DERIV = 24              # jet length used for S_3, S_4 (Cauchy tail added by exprs.Analysis)
